@@ -223,6 +223,34 @@ class ExprMixin:
           and e.value.args[0].id == g.target.elts[1].id
           and len(g.ifs) <= 1
           and all(isinstance(c, ast.Name) and c.id == g.target.elts[1].id for c in g.ifs))
+    # second form: {k: v for k, v in d.items() if isinstance(k, str)} (filter by key type)
+    filt = (isinstance(g.target, ast.Tuple) and len(g.target.elts) == 2
+            and all(isinstance(x, ast.Name) for x in g.target.elts)
+            and isinstance(g.iter, ast.Call) and isinstance(g.iter.func, ast.Attribute)
+            and g.iter.func.attr == 'items' and not g.iter.args
+            and isinstance(e.key, ast.Name) and e.key.id == g.target.elts[0].id
+            and isinstance(e.value, ast.Name) and e.value.id == g.target.elts[1].id
+            and len(g.ifs) == 1 and isinstance(g.ifs[0], ast.Call)
+            and isinstance(g.ifs[0].func, ast.Name) and g.ifs[0].func.id == 'isinstance'
+            and len(g.ifs[0].args) == 2 and isinstance(g.ifs[0].args[0], ast.Name)
+            and g.ifs[0].args[0].id == g.target.elts[0].id
+            and isinstance(g.ifs[0].args[1], ast.Name) and g.ifs[0].args[1].id in ('str', 'int'))
+    if filt:
+      from pyvc.calls import trusted
+      trusted('dict comprehension {k: v for k, v in d.items() if isinstance(k, T)}: filtered copy')
+      tname = g.ifs[0].args[1].id
+      def kf(st2, src):
+        h = st2.heap
+        s = ref(src)
+        if self.feasible_full(st2, z3.Not(z3.And(is_VRef(src), cls_in(h.cls(s), 'dict')))):
+          self.unsupp('dict comprehension over a value that may not be a dict', e)
+        kk = z3.Const('dcf_k', Val)
+        newhas = fresh('dcf_has', HasArr)
+        keep = is_VStr(kk) if tname == 'str' else z3.Or(is_VInt(kk), is_VBool(kk))
+        fact = z3.ForAll([kk], newhas[kk] == z3.And(h.has(s, kk), keep), patterns=[newhas[kk]])
+        st3, d = self.new_dict(st2.assume(fact), 'dict', has=newhas, val=h.valarr(s))
+        return [Res(st3, VRef(d))]
+      return self.then(self.ev(g.iter.func.value, st), kf)
     if not ok:
       self.unsupp('dict comprehension outside the summarised forms', e)
     wrap = e.value.func.id
